@@ -390,6 +390,61 @@ def work_sizes(chunk, st):
     st.sample({'size_sweep': [list(chunk[0][0]), chunk[0][1], chunk[0][2], chunk[0][3]]}, cap=6)
 
 
+# ---- notes that are attached while an audit runs (Terrapin, measured sizes) stay on the algorithm they belong to: every database name as a
+# bystander next to every name that earns such a note
+def bystander_tasks():
+    out = []
+    enc, mac, key, kex = (H.db_names(c) for c in ('enc', 'mac', 'key', 'kex'))
+    shaped = lambda n: T.is_cbc(n) or T.is_chacha(n)
+    for a in [n for n in enc if shaped(n)]:
+        out.append(('enc', a, tuple(b for b in enc if not shaped(b))))
+    for a in [n for n in mac if T.is_etm(n)]:
+        out.append(('mac', a, tuple(b for b in mac if not T.is_etm(b))))
+    for a in ('ssh-rsa', 'rsa-sha2-256', 'rsa-sha2-512'):
+        out.append(('key', a, tuple(b for b in key if 'rsa' not in b and '-cert-' not in b)))
+    for a in ('diffie-hellman-group-exchange-sha1', 'diffie-hellman-group-exchange-sha256'):
+        out.append(('kex', a, tuple(b for b in kex if 'group-exchange' not in b and not b.endswith('-*') and not b.startswith('kex-strict'))))
+    return out
+
+
+def _notes_json(res, cat, name):
+    if res.status not in (0, 2, 3) or res.hang or res.exc:
+        return None
+    for e in json.loads(res.stdout).get(cat, []):
+        if e['algorithm'] == name:
+            return sorted((lv, t) for lv in ('fail', 'warn', 'info') for t in e.get('notes', {}).get(lv, []))
+    return None
+
+
+def work_bystanders(chunk, st):
+    for cat, a, bystanders in chunk:
+        base = dict(kex=['curve25519-sha256'], key=['ssh-ed25519'], enc=['aes256-ctr'], mac=['hmac-sha2-256'])
+        if cat == 'enc':
+            base['mac'] = ['hmac-sha2-256', 'hmac-sha2-256-etm@openssh.com']       # makes a CBC neighbour earn the warning
+        if cat == 'mac':
+            base['enc'] = ['aes256-ctr', 'aes128-cbc']
+
+        def run(names):
+            lists = dict(base)
+            lists[cat] = [n for n in base[cat] if n not in names] + list(names) if cat in ('enc', 'mac') else list(names) + [n for n in base[cat] if n not in names]
+            srv = peer.Server(kex=lists['kex'], key=lists['key'], enc=lists['enc'], mac=lists['mac'], banner=b'SSH-2.0-dropbear_2022.83',
+                              host_keys=peer.standard_host_keys([k for k in lists['key'] if k in ('ssh-ed25519', 'ssh-rsa', 'rsa-sha2-256', 'rsa-sha2-512')], rsa_bits=1024),
+                              gex=peer.GexPolicy([1024], peer.STRICT))
+            return H.audit(srv, opts=['-n', '-j', '--skip-rate-test'])
+        for b in bystanders:
+            alone = run([b])
+            beside = run([b, a])
+            root = ('bystander', cat, a, b)
+            st.execution(beside.world, outcome=('bystander', cat, beside.status), root=root, nontrivial=root, detail='light')
+            n0, n1 = _notes_json(alone, cat, b), _notes_json(beside, cat, b)
+            if n0 is None or n1 is None:
+                st.violation('bystander:not-reported:%s' % cat, {'source': a, 'bystander': b, 'status': [alone.status, beside.status]})
+            elif n0 != n1:
+                st.violation('rating-varies:bystander-of-a-name-that-earns-a-dynamic-note:%s' % cat,
+                             {'source': a, 'bystander': b, 'alone': n0, 'beside': n1, 'differing_notes': sorted(set(n0) ^ set(n1))[:4]})
+    st.sample({'bystanders_of': [chunk[0][0], chunk[0][1]], 'count': len(chunk[0][2])}, cap=6)
+
+
 def size_tasks(tier):
     out = []
     for bits in SIZE_SWEEP:
@@ -415,6 +470,7 @@ def run(tier, seed):
           for b in (b'SSH-2.0-OpenSSH_8.9p1', b'SSH-2.0-dropbear_2022.83')]
     par.pmap(work_gex_faults, gf, stats=st, chunk=1)
     par.pmap(work_sizes, size_tasks(tier), stats=st, chunk=4)
+    par.pmap(work_bystanders, bystander_tasks(), stats=st, chunk=1)
     import itertools
     hist = [(k, f) for n in ((2,) if tier == 'quick' else (2, 3)) for k in itertools.product(sorted(HIST), repeat=n) for f in ('text', 'json')]
     par.pmap(work_history, hist, stats=st, chunk=4)
@@ -443,6 +499,7 @@ def run(tier, seed):
              '{alone, first, middle, last} x %d neighbour contexts (marker x CBC x ETM, plus contexts whose neighbours earn measured-size notes: '
              '1024-bit RSA key, certificate with 1024-bit CA, 1024-bit GEX modulus) x role x {text,json}, plus --lookup of every name; '
              'RSA-family names (plain and certificate) x %d key sizes around every threshold (not multiples of 8/16 included) x CA kinds: size notes as the documented thresholds give for the key presented; '
+             'every database name as a bystander next to every name that earns a note during the audit (each CBC / ChaCha cipher, each ETM MAC, small RSA keys, small GEX moduli); '
              'histories: every ordered pair (thorough: triple) of four servers sharing names in ONE -T invocation, each name rated as when its target is audited alone; '
              'non-trivial = distinct (category, name, documented context, position, role, format)' % (len(ctxs), len(SIZE_SWEEP)),
         assumptions=['documented context = Terrapin context (refmodels/terrapin.py) and measured sizes (held fixed here)',
